@@ -92,7 +92,7 @@ func (x *Exec) ifaceCall(fr *Frame, st *State, ic *FuncContract, c *ssa.CallComm
 			names = append(names, sig.Params().At(i).Name())
 			ptypes = append(ptypes, sig.Params().At(i).Type())
 		}
-		x.note("interface method " + c.Method.FullName() + ": assumed contract (any implementation is assumed to satisfy it)")
+		x.note("abstracted: interface method " + c.Method.FullName() + ": assumed contract (any implementation is assumed to satisfy it)")
 		return x.contractCallSig(fr, st, c.Method.Name(), names, ptypes, sig, nil, ic, x.vc.uni.pkgOfNamed(c.Value.Type()), append([]Value{recv}, args...), pos, resT)
 	}
 	res := x.ifaceApply(st, c.Value.Type(), c.Method, recv.X, args)
